@@ -3,3 +3,4 @@ pub mod flt;
 pub mod gen;
 pub mod numtext;
 pub mod report;
+pub mod fmodel;
